@@ -1245,6 +1245,26 @@ class Frame:
 
   def e_DictComp(self, node):
     pairs = self.comprehension(node, lambda fr: (fr.eval(node.key), fr.eval(node.value)))
+    if hasattr(pairs, "_pyvc_symlen"):
+      # {key: value for key in seq} over a symbolic-length sequence whose k-th key is position k: a positional map
+      from . import seq as _seq
+      from . import sym as _sym
+      c = _ctx.CUR
+      n = pairs._pyvc_symlen()
+      k1 = _sym.SInt(c.fresh_int("k_dc"))
+      c.assume(_sym.sand(k1 >= 0, k1 < n))
+      if not _sym.prove(pairs._pyvc_at(k1)[0] == k1):
+        raise Unsupported("dict comprehension over a symbolic-length sequence whose keys are not the positions")
+      vals = lambda j: pairs._pyvc_at(j)[1]
+      k2 = _sym.SInt(c.fresh_int("k_dc2"))
+      c.assume(_sym.sand(k2 >= 0, k2 < n))
+      v1, v2 = vals(k1), vals(k2)
+      if _sym.prove(v1 == v2):
+        c.axioms_used.add("Sum of a constant map = size * value (Lean Spec.sum_replicate)")
+        total = n * vals(0)
+      else:
+        total = _seq.SSeq(n, vals, "dictcomp_values")._pyvc_sum()
+      return _seq.SMap(n, vals, total)
     return dict(pairs)
 
   def comprehension(self, node, elt):
